@@ -464,6 +464,40 @@ func (s *Schema) minWire(t Type, seen map[string]bool) int {
 	return n
 }
 
+// FixedWire is the wire size of t when every value of t occupies the same number of bytes
+// (scalars, enums, structs of such), 0 otherwise.
+func (s *Schema) FixedWire(t Type) int { return s.fixedWire(t, map[string]bool{}) }
+
+func (s *Schema) fixedWire(t Type, seen map[string]bool) int {
+	switch {
+	case t.Array != nil || t.MapV != nil || t.Prim == "string":
+		return 0
+	case t.Prim != "":
+		return primSize[t.Prim]
+	}
+	d := s.Lookup(t.Named)
+	if d == nil {
+		return 0
+	}
+	if d.Kind == KEnum {
+		return primSize[d.BaseType()]
+	}
+	if d.Kind != KStruct || seen[d.Name] {
+		return 0
+	}
+	seen[d.Name] = true
+	defer delete(seen, d.Name)
+	n := 0
+	for _, f := range d.Fields {
+		k := s.fixedWire(f.Type, seen)
+		if k == 0 {
+			return 0
+		}
+		n += k
+	}
+	return n
+}
+
 // Shape returns a compact structural description of t (names erased), used to count
 // distinct type shapes explored.
 func (s *Schema) Shape(t Type) string { return s.shape(t, 0) }
